@@ -32,9 +32,17 @@ def hist_runs(thorough, threads=3, ops=4, enum_cases=(8, 20), mixed=(2000, 30000
 def c06(res, thorough):
     base_cov(res, ["memory orders", "back-off timing", "allocators of container:: wrappers", "FC wait strategies other than backoff",
                    "MSQueue: Lean machine (Algo/MSQueue) proved linearizable for all schedules (hindsight LP of the empty dequeue included) and tied by trace conformance; garbage-collected heap (no node reuse: what C01/C02 provide), HP stores not modelled, weak CAS never fails spuriously",
-                   "MoirQueue, BasketQueue, OptimisticQueue, RWQueue, FCQueue and the container:: wrappers: no algorithm model; decided by histories judged against Spec.fifo"],
-             partial=["linearizability of MoirQueue/BasketQueue/OptimisticQueue/RWQueue/FCQueue as theorems about algorithm models: not proved; decided on explored schedules only"])
-    lean_step(res, ["CdsVerif.Props.C06", "CdsVerif.Props.C06MSQueue"], thorough)
+                   "MoirQueue, RWQueue (two-lock queue) and OptimisticQueue (prev links as hints, fix_list): Lean machines over a shared generic ghost-log toolkit (Algo/QueueLin), each proved linearizable to Spec.fifo for all schedules incl. the hindsight point of the empty dequeue, "
+                   "no invention / no duplication, and each tied by trace conformance (imoir_hp, rwqueue_named, ioptimistic_named); same heap / CAS assumptions as MSQueue",
+                   "FCQueue without elimination: C06_fcqueue_linearizable (generic flat-combining theorem of C10 instantiated with Spec.fifo); with elimination: fixed-batch theorems + differential tie + histories",
+                   "BasketQueue and the container:: wrappers: no algorithm model; decided by histories judged against Spec.fifo (incl. CAS-biased 4-thread runs and the final drain)"],
+             partial=["linearizability of BasketQueue as a theorem: not proved; decided on explored schedules only", "FCQueue elimination under concurrency: fixed-batch theorems only"])
+    lean_step(res, ["CdsVerif.Props.C06", "CdsVerif.Props.C06MSQueue", "CdsVerif.Props.C06Moir", "CdsVerif.Props.C06RWQueue", "CdsVerif.Props.C06Optimistic", "CdsVerif.Props.C10FCLin"], thorough)
+    for v, m in (("imoir_hp", "moir"), ("rwqueue_named", "rwqueue"), ("ioptimistic_named", "optimistic")):
+        tie_A(res, "queue", m, [{"args": ["--mode", "mixed", "--threads", "4", "--ops", "4", "--variant", v], "cases": 10000 if thorough else 1200},
+                                {"args": ["--mode", "cas", "--threads", "3", "--ops", "4", "--variant", v], "cases": 6000 if thorough else 800},
+                                {"args": ["--mode", "enum2" if thorough else "enum1", "--threads", "2", "--ops", "3", "--variant", v], "cases": 10 if thorough else 5}])
+    fcbatch.fcbatch_check(res, thorough, kinds=["queue"])
     # tie A: the Lean machine whose linearizability is proved (Algo/MSQueue) must accept the real traces step by step
     for v in ("imsqueue_hp", "imsqueue_dhp"):
         tie_A(res, "queue", "msqueue", [{"args": ["--mode", "mixed", "--threads", "4", "--ops", "4", "--variant", v], "cases": 10000 if thorough else 1200},
@@ -206,7 +214,7 @@ def c03(res, thorough):
 
 
 SETMAP_MNV = ["memory orders", "back-off timing", "allocators and functor bodies (a functor body is not a scheduling point)",
-              "no atomic-step model of these containers yet: every variant is decided by histories of the real code judged by the verified checker against Spec.map",
+              "every variant is decided by histories of the real code judged by the verified checker against Spec.map; the variants that additionally have a proved atomic-step machine tied by trace replay are named below",
               "documented update hazard of map forms (update(key, functor) links a default-constructed value before the functor runs): the *_updfn variants that expose it are excluded",
               "general_threaded and signal_buffered RCU flavours need OS primitives under the baton and are not run here",
               "client-side spin hints report libcds loops that wait without calling a back-off (liveness only)"]
@@ -266,25 +274,47 @@ def c13(res, thorough):
 
 def c14(res, thorough):
     c14_body(res, thorough)
+    c14_feldman_tie(res, thorough)
     tie_A(res, "hashset", "splitlist",
           [{"args": ["--mode", "mixed", "--threads", "4", "--ops", "5", "--variant", "isset_michael_hp_named"], "cases": 12000 if thorough else 1500},
            {"args": ["--mode", "mixed", "--threads", "3", "--ops", "6", "--variant", "isset_michael_hp_named"], "cases": 8000 if thorough else 800},
            {"args": ["--mode", "enum2" if thorough else "enum1", "--threads", "2", "--ops", "3", "--variant", "isset_michael_hp_named"], "cases": 10 if thorough else 4}])
 
 
+def c14_feldman_tie(res, thorough):
+    tie_A(res, "hashset", "feldman",
+          [{"args": ["--mode", "mixed", "--threads", "4", "--ops", "5", "--variant", "ifset_hp_named"], "cases": 12000 if thorough else 1500},
+           {"args": ["--mode", "mixed", "--threads", "3", "--ops", "6", "--variant", "ifset_hp_named"], "cases": 8000 if thorough else 800},
+           {"args": ["--mode", "cas", "--threads", "2", "--ops", "6", "--variant", "ifset_hp_named"], "cases": 4000 if thorough else 500},
+           {"args": ["--mode", "enum2" if thorough else "enum1", "--threads", "2", "--ops", "3", "--variant", "ifset_hp_named"], "cases": 10 if thorough else 4}],
+          label="hashset:feldman")
+
+
 def c14_body(res, thorough):
-    setmap_check(res, thorough, "C14", "hashset", mixed=(4000, 50000), enum_cases=(55, 110), modules=["CdsVerif.Props.C14SplitList"],
+    setmap_check(res, thorough, "C14", "hashset", mixed=(4000, 50000), enum_cases=(55, 110), modules=["CdsVerif.Props.C14SplitList", "CdsVerif.Props.C14Feldman"],
                  mnv=["SplitListSet over MichaelList with the dynamic bucket table: Lean machine (Algo/SplitList: get_bucket, recursive init_bucket with the nested insert of the dummy and its publication, the MichaelList steps started from the bucket's dummy, "
                       "inc_item_count with the two growth CASes) proved linearizable to Spec.map for all schedules, thread counts, keys and hash functions; sorted by split order, published bucket pointers point to the linked unmarked dummy of their bucket, "
                       "a lazily initialised child bucket sees every key of its range, growth changes no result; the split-order facts it needs are the C27 theorems (C14_cfg64_hyp instantiates them for the real 64-bit key functions); "
                       "tied by trace conformance (hidden variant isset_michael_hp_named, three hash modes incl. a hash of SIZE_MAX)","locality (Base/Locality, Herlihy-Wing Theorem 1 proved for the framework's definition) and C14_table_of_linearizable_buckets: a table whose operations are routed by ANY bucket function to independent buckets is a linearizable map "
                       "as soon as every bucket's sub-history is; with the MichaelList machine of C13 this covers MichaelHashSet over MichaelList at the level of histories (the product machine itself is not written); "
-                      "SplitList over LazyList / IterableList, the static bucket table, the aux-node free list beyond the first segment, and FeldmanHashSet (multi-level array) have no algorithm model",
+                      "FeldmanHashSet (HP): Lean machine (Algo/Feldman: traverse with spin on a converting slot, the insert / erase / update CASes, the four expand_slot steps) proved linearizable to Spec.map for all schedules under PathHyp (all hash paths of one length and injective: what C28 proves of the real splitter); "
+                      "an expansion changes no lookup, the moved item is in the new array node before it is published (the two seeded Feldman changes break exactly this; with copyFirst = false the machine reaches a proved non-linearizable run); tied by trace conformance (hidden variant ifset_hp_named)",
+                      "SplitList over LazyList / IterableList, the static bucket table, the aux-node free list beyond the first segment, Feldman maps / RCU forms: no separate model",
                       "the hashset client calls the *_with( key, less ) overloads in a quarter of the cases and gives split lists a colliding hash (key >> 1) in half of them"])
 
 
 def c15(res, thorough):
-    setmap_check(res, thorough, "C15", "tree", mixed=(4000, 50000), spec="mapr", history_oracle=steps.minmax_oracle)
+    setmap_check(res, thorough, "C15", "tree", mixed=(4000, 50000), spec="mapr", history_oracle=steps.minmax_oracle, modules=["CdsVerif.Props.C15SkipList"],
+                 mnv=["SkipListSet (HP): Lean machine of the REPAIRED code (Algo/SkipList: towers, find_position with helping, insert level by level with renew_insert_position, try_remove_at, fast and slow find paths; Cfg.markTest = the mark test added by b95a3c3), "
+                      "tied by trace conformance (hidden variant iskipset_hp_named) with a structural predicate evaluated on every replayed state (every level sorted and a sub-list of the level below, a level-0 mark implies all upper marks, quiescence implies no marked node); "
+                      "theorems: marked words frozen, level 0 marked only by the successful erase, the fast path answers 'found' only after reading an unmarked level-0 link, and WITHOUT the mark test the machine has a complete run whose history is proved non-linearizable "
+                      "(C15_skiplist_not_linearizable_without_mark_test: the defect fixed by b95a3c3). Linearizability of the repaired machine for all schedules is NOT proved (the inductive invariant over the upper levels was not finished)",
+                      "EllenBinTree, BronsonAVLTreeMap, SkipListMap and the RCU forms: no algorithm model; decided by histories"],
+                 partial=["C15_skiplist_linearizable for all schedules: not proved; the machine is validated against the code by replay, its histories by the verified checker", "EllenBinTree / Bronson machines: none"])
+    tie_A(res, "tree", "skiplist",
+          [{"args": ["--mode", "mixed", "--threads", "4", "--ops", "5", "--variant", "iskipset_hp_named"], "cases": 12000 if thorough else 1500},
+           {"args": ["--mode", "random", "--threads", "4", "--ops", "4", "--keys", "2", "--variant", "iskipset_hp_named"], "cases": 8000 if thorough else 1000},
+           {"args": ["--mode", "enum2" if thorough else "enum1", "--threads", "2", "--ops", "3", "--variant", "iskipset_hp_named"], "cases": 4}])
     # two keys, four threads, CAS-biased schedules, STRICT map specification: the run that re-finds the skip-list fast-path defect of commit b95a3c3
     # (erase answers 'not found' on a node another eraser has marked but not unlinked, find must then not find it): about 1 case in 1500 before the fix
     tie_H(res, "tree", [{"args": ["--mode", "cas", "--threads", "4", "--ops", "4", "--variant", "iskipset_hp_named", "--keys", "2", "--spec", "map"], "cases": 100000 if thorough else 12000}], label="tree-skip2keys")
@@ -661,14 +691,14 @@ TABLE = {
     "C21": ("proof", c21),
     "C24": ("proof", c24),
     "C13": ("translation_validation", c13),
-    "C14": ("translation_validation", c14),
+    "C14": ("proof", c14),
     "C15": ("translation_validation", c15),
     "C16": ("translation_validation", c16),
     "C01": ("proof", c01),
     "C02": ("proof", c02),
     "C03": ("proof", c03),
     "C23": ("proof", c23),
-    "C06": ("translation_validation", c06),
+    "C06": ("proof", c06),
     "C07": ("proof", c07),
     "C10": ("proof", c10),
     "C11": ("translation_validation", c11),
